@@ -363,7 +363,7 @@ def mon_interrupts(scn, run):
             continue  # served inside the tick in progress
         spent = sum(costs.get(u["comp"], 0) for u in ups if end_n < u["n"] < U["n"])
         elapsed = U["real"] - R["real"]
-        if elapsed > spent + inprog:
+        if elapsed > spent + inprog + 1:   # + 1 ns: the harness clock has whole nanoseconds and timers are rounded up to it
             out.append(V("interrupt-served-late", f"{R['comp']} raised at real={R['real']} ({where}) served at real={U['real']}: {elapsed}ns later; tick in progress lasted {inprog}ns, serving tick spent {spent}ns before it",
                          comp=R["comp"], phase=where, depth=S.depth_map(scn).get(R["comp"])))
     return out
